@@ -152,4 +152,30 @@ CHECKS["C19"] = dict(
     thorough=dict(workers=16, cases=12000, maxsize=80),
 )
 
+CHECKS["C10"] = dict(
+    harness="C10_attr", sources=["props/C10_attr.cc", "shim/shim.c", "pki/pki.cc"], variant="asan",
+    level="exploration", engine="rapidcheck + ASan/UBSan exact-size buffers",
+    technique="property-based testing: generated (socket state, attribute name, capacity / type / "
+              "length / value) probes, differential against a big-buffer read, snapshot oracle "
+              "for rejected sets, ASan red zones as write guard",
+    level_text="For sockets of all nine transport configurations (server, client-side and accepted "
+               "connections; established, closed by peer, held in connecting state by the shim) "
+               "every get variant is probed with capacities around the value size into heap "
+               "buffers of exactly that capacity, and xcm_attr_set with all types, fixed-size "
+               "length violations and value classes; rejected sets must leave the attribute "
+               "snapshot unchanged. Names come from xcm_attr_get_all, the documented universe, "
+               "list/sub-key suffixes, 60-130 component paths, 200-600 char names and raw bytes. "
+               "Sampled.",
+    level_note="Kernel statistics (tcp.rtt, tcp.segs_*, tcp.total_retrans) are volatile: only "
+               "size/type are compared. String values given to set are NUL-terminated within len "
+               "(documented contract).",
+    rule=("case = (transport, socket kind, state) + up to 60 probes. Non-trivial = a get with "
+          "capacity < value size, a typed getter applied to an attribute of another type, or a set "
+          "that was rejected on an existing attribute. Distinct = FNV-1a of the plan."),
+    assumptions=["xcm.service written after creation returning 0 (no-op) is not judged here (see "
+                 "DESIGN.md section 6)"],
+    quick=dict(workers=16, cases=150, maxsize=60),
+    thorough=dict(workers=16, cases=4000, maxsize=60),
+)
+
 NOT_APPLICABLE = []
